@@ -12,10 +12,10 @@ SIZES = {
     # (synth scenarios, steps each, micro BFS scenarios, shipped steps,
     #  generated scenarios)
     "quick": dict(n_synth=320, steps=320, n_micro=40, shipped_steps=300,
-                  n_gen=10, bfs_cap=1500, n_large=2, n_ring=24, n_twin=30),
+                  n_gen=10, bfs_cap=1500, n_large=2, n_ring=24, n_twin=30, n_wide=16),
     "thorough": dict(n_synth=12000, steps=700, n_micro=1800,
                      shipped_steps=2000, n_gen=240, bfs_cap=8000, n_large=24,
-                     n_ring=1200, n_twin=1500),
+                     n_ring=1200, n_twin=1500, n_wide=800),
 }
 BFS_SHIPPED = {"quick": ["tiny", "tiny-hard"],
                "thorough": ["tiny", "tiny-hard", "tiny-small", "small",
@@ -44,6 +44,8 @@ def build_cases(tier):
         cases.append(("ring", i))
     for i in range(z.get("n_twin", 30)):
         cases.append(("twin", i))
+    for i in range(z.get("n_wide", 16)):
+        cases.append(("wide", i))
     return cases
 
 
@@ -240,6 +242,10 @@ def run(prop, tier, seed, shard, nshards):
                 sp = any_twin(sp0, rng)
                 subj = Subject(sp, route=route, **modes)
                 episode(prop, mon, subj, rng, z["steps"] // 2, acc)
+            elif ctype == "wide":
+                sp = synth.wide(rng)
+                subj = Subject(sp, route=sp.origin.split(":")[1], **modes)
+                episode(prop, mon, subj, rng, z["steps"], acc)
             elif ctype == "ring":
                 sp = synth.ring(rng)
                 subj = Subject(sp, route=sp.origin.split(":")[1], **modes)
